@@ -7,9 +7,12 @@ EXTENDS ThermalExpansion
 \* fails the constraint, without de-duplication, which made the boundary level dominate the run time.
 Go    == TLCGet("level") <= MaxLevel
 ATemp == Go /\ \E c \in Comp, t \in Temp : SetTemperature(c, t)
+ARamp == Go /\ \E c \in Comp, t \in Temp, k \in RampSteps : Ramp(c, t, k)
 ADim  == Go /\ \E c \in Comp, d \in MutDim, v \in 1..NV, cold \in BOOLEAN, retain \in BOOLEAN : SetDim(c, d, v, cold, retain)
-ALink == Go /\ \E lp \in LinkPairs : SetLink(lp[1], lp[2], lp[3], lp[4])
-NextB == ATemp \/ ADim \/ ALink
+ALink == Go /\ \E c \in Comp, lp \in LinkPairs : SetLink(c, lp[2], lp[3], lp[4])
+ACopy == Go /\ \E c \in Base : Copy(c)
+NextB == ATemp \/ ARamp \/ ADim \/ ALink \/ ACopy
+McRamp == {60}
 Bound == TLCGet("level") <= MaxLevel + 1
 View  == state
 \* component 1 is the shape/material under test, component 2 a partner whose two lengths are unconstrained:
@@ -17,6 +20,7 @@ View  == state
 McLinks == {<<1, "e2", 2, "e1">>, <<2, "e2", 1, "e2">>}
 McKindsAll   == {<<k1, k2>> : k1 \in Kinds, k2 \in {"solid", "fluid", "inert"}}
 McKindsEmit  == {<<k1, k2>> : k1 \in Kinds, k2 \in {"solid", "fluid"}}
+McKindsEmitQuick == {<<k1, "solid">> : k1 \in Kinds} \cup {<<"solid", "fluid">>, <<"fluid", "fluid">>}
 McKindsQuick == {<<"solid", "solid">>, <<"solid", "fluid">>, <<"inert", "solid">>, <<"custom", "solid">>, <<"fluid", "inert">>, <<"void", "solid">>}
 \* <<Tin1, Thot1, Tin2, Thot2>>
 McTempsAll3  == {<<a, b, c, d>> : a \in 1..2, b \in 1..3, c \in 1..2, d \in 2..3}
@@ -29,7 +33,7 @@ DimIdx(d)  == CASE d = "e1" -> 1 [] d = "e2" -> 2 [] d = "n" -> 3
 KindIdx(k) == CASE k = "solid" -> 1 [] k = "inert" -> 2 [] k = "fluid" -> 3 [] k = "void" -> 4 [] k = "custom" -> 5
 EntryKey(x) == IF x.k = "v" THEN <<0, x.bc, DimIdx(x.bd), x.b, x.e>> ELSE <<1, x.c, DimIdx(x.d), 0, 0>>
 CompKey(c) == <<KindIdx(kind[c]), Tin[c], T0[c], T[c], nd[c]>> \o EntryKey(p[c]["e1"]) \o EntryKey(p[c]["e2"]) \o EntryKey(p[c]["n"])
-Key == CompKey(1) \o CompKey(2)
+Key == <<src>> \o CompKey(1) \o CompKey(2) \o CompKey(3)
 \* one line per explored edge and one line per distinct state (with every observable)
 Emit  == PrintT(ToJson([lvl |-> TLCGet("level"), from |-> Key, act |-> act', to |-> Key', err |-> err']))
 EmitState == PrintT(ToJson([st |-> Key, vars |-> Vars, obs |-> Obs]))
